@@ -258,8 +258,8 @@ theorem xlsxStylesLoop_ne_panic (m : String) : ∀ (evs : List SEv) (mode : SMod
     | start n a =>
       simp only
       split
-      · have h1 := xlsxStyles_ne_panic defs m [attr "numFmtId" a]
-        cases h : xlsxStyles defs [attr "numFmtId" a] with
+      · have h1 := xlsxStyles_ne_panic defs m [(attr "numFmtId" a).map formatId]
+        cases h : xlsxStyles defs [(attr "numFmtId" a).map formatId] with
         | ok cls => exact xlsxStylesLoop_ne_panic m rest _ _ _
         | err e => simp
         | panic x => simp_all
@@ -410,6 +410,89 @@ theorem xlsStylesOfRecords_enc (items : List XlsItem) (hwf : ∀ i ∈ items, i.
   rw [xlsStyleFold_enc after items hwf [] []]
   simp
 
+/-! ## `format_id`: leading zeros of a decimal id are not significant -/
+
+theorem toDigits_head (n : Nat) (hn : 0 < n) : ∃ c cs, Nat.toDigits 10 n = c :: cs ∧ c ≠ '0' := by
+  induction n using Nat.strongRecOn with
+  | _ n ih =>
+    rw [Nat.toDigits_eq_if (by decide : 1 < 10)]
+    split
+    · rename_i h
+      refine ⟨Nat.digitChar n, [], rfl, ?_⟩
+      have : n = 1 ∨ n = 2 ∨ n = 3 ∨ n = 4 ∨ n = 5 ∨ n = 6 ∨ n = 7 ∨ n = 8 ∨ n = 9 := by omega
+      rcases this with rfl | rfl | rfl | rfl | rfl | rfl | rfl | rfl | rfl <;> decide
+    · rename_i h
+      obtain ⟨c, cs, hc, hne⟩ := ih (n / 10) (by omega) (by omega)
+      exact ⟨c, cs ++ [Nat.digitChar (n % 10)], by rw [hc]; rfl, hne⟩
+
+theorem digit_byte (c : Char) (h : c.isDigit = true) :
+    isDigitByte (UInt8.ofNat c.toNat) = true ∧ (UInt8.ofNat c.toNat = 48 → c = '0') := by
+  have hd := Char.isDigit_iff_toNat.mp h
+  have h0 : '0'.toNat = 48 := by decide
+  have h9 : '9'.toNat = 57 := by decide
+  rw [h0, h9] at hd
+  have ht : (UInt8.ofNat c.toNat).toNat = c.toNat := by simp [UInt8.toNat_ofNat]; omega
+  refine ⟨by simp [isDigitByte, ht, hd.1, hd.2], ?_⟩
+  intro he
+  have : c.toNat = 48 := by rw [← ht, he]; rfl
+  exact Char.toNat_inj.mp (by rw [this, h0])
+
+theorem decimal_digits (n : Nat) : (decimal n).all isDigitByte = true := by
+  simp only [decimal, List.all_map, List.all_eq_true, Function.comp]
+  intro c hc
+  exact (digit_byte c (Nat.isDigit_of_mem_toDigits (by decide) (by decide) hc)).1
+
+theorem decimal_zero : decimal 0 = [48] := by decide
+
+theorem decimal_head (n : Nat) (hn : 0 < n) : ∃ d ds, decimal n = d :: ds ∧ d ≠ 48 := by
+  obtain ⟨c, cs, hc, hne⟩ := toDigits_head n hn
+  refine ⟨UInt8.ofNat c.toNat, cs.map (fun c => UInt8.ofNat c.toNat), by simp [decimal, hc], ?_⟩
+  intro he
+  have hdig : c.isDigit = true := Nat.isDigit_of_mem_toDigits (b := 10) (n := n) (by decide) (by decide) (by rw [hc]; simp)
+  exact hne ((digit_byte c hdig).2 he)
+
+theorem takeWhile_zeros (z : Nat) (rest : Bytes) :
+    ((List.replicate z (48 : UInt8) ++ rest).takeWhile (· == 48)).length = z + (rest.takeWhile (· == 48)).length := by
+  induction z with
+  | zero => simp
+  | succ z ih => simp [List.replicate_succ, List.takeWhile_cons, ih]; omega
+
+theorem all_digits_pad (z n : Nat) : (padId z n).all isDigitByte = true := by
+  simp only [padId, List.all_append, Bool.and_eq_true]
+  refine ⟨?_, decimal_digits n⟩
+  simp [List.all_replicate, isDigitByte]
+
+/-- every decimal spelling of `n` with leading zeros is read as the canonical spelling -/
+theorem formatId_padId (z n : Nat) : formatId (padId z n) = decimal n := by
+  have hall := all_digits_pad z n
+  unfold formatId
+  have hne : (padId z n).isEmpty = false := by
+    by_cases hn : 0 < n
+    · obtain ⟨d, ds, hd, _⟩ := decimal_head n hn
+      simp [padId, hd]
+    · have : n = 0 := by omega
+      subst this; simp [padId, decimal_zero]
+  rw [hne, hall]
+  simp only [Bool.not_true, Bool.or_false, Bool.false_eq_true, if_false]
+  by_cases hn : 0 < n
+  · obtain ⟨d, ds, hd, hd48⟩ := decimal_head n hn
+    have htw : ((d :: ds).takeWhile (· == 48)).length = 0 := by
+      simp [List.takeWhile_cons, hd48]
+    simp only [padId, hd, takeWhile_zeros, htw, List.length_append, List.length_replicate, List.length_cons]
+    rw [show min (z + 0) (z + (ds.length + 1) - 1) = z by omega]
+    simp [List.drop_left']
+  · have : n = 0 := by omega
+    subst this
+    simp only [padId, decimal_zero, takeWhile_zeros, List.length_append, List.length_replicate, List.length_cons, List.length_nil]
+    have : ((([48] : Bytes)).takeWhile (· == 48)).length = 1 := by decide
+    rw [this, show min (z + 1) (z + (0 + 1) - 1) = z by omega]
+    simp [List.drop_left']
+
+/-- … in particular `formatId` leaves a canonical spelling alone -/
+theorem formatId_decimal (n : Nat) : formatId (decimal n) = decimal n := by
+  have := formatId_padId 0 n
+  simpa [padId] using this
+
 /-! ## xlsx: decode ∘ encode -/
 
 theorem afterColon_none : ∀ (l : List Char), ':' ∉ l → afterColon l = none
@@ -538,26 +621,26 @@ theorem utf8Bytes_toNat (s : List Char) : (utf8Bytes s).map (·.toNat) = Utf8.ut
 def fmtDefs (formats : List (Nat × List Char)) : List (Bytes × List Char) :=
   (formats.filter fun f => !f.2.isEmpty).map fun f => (decimal f.1, f.2)
 
-theorem loop_numFmts_items (pfx : Option (List Char)) (hp : ∀ p, pfx = some p → ':' ∉ p) (idFirst : Bool) :
+theorem loop_numFmts_items (pfx : Option (List Char)) (hp : ∀ p, pfx = some p → ':' ∉ p) (idFirst : Bool) (z : Nat) :
     ∀ (formats : List (Nat × List Char)) (rest : List SEv) (defs : List (Bytes × List Char)) (fmts : List CellFormat),
-    xlsxStylesLoop .numFmts (formats.flatMap (numFmtEvs pfx idFirst) ++ rest) defs fmts =
+    xlsxStylesLoop .numFmts (formats.flatMap (numFmtEvs pfx idFirst z) ++ rest) defs fmts =
       xlsxStylesLoop .numFmts rest (defs ++ fmtDefs formats) fmts
   | [], rest, defs, fmts => by simp [fmtDefs]
   | f :: formats, rest, defs, fmts => by
     have hn := localName_qn pfx hp "numFmt" (by decide)
     have hne : "numFmt".toList ≠ "numFmts".toList := by decide
-    have hid : attr "numFmtId" (if idFirst then [("numFmtId".toList, decimal f.1), ("formatCode".toList, utf8Bytes f.2)]
-        else [("formatCode".toList, utf8Bytes f.2), ("numFmtId".toList, decimal f.1)]) = some (decimal f.1) := by
+    have hid : attr "numFmtId" (if idFirst then [("numFmtId".toList, padId z f.1), ("formatCode".toList, utf8Bytes f.2)]
+        else [("formatCode".toList, utf8Bytes f.2), ("numFmtId".toList, padId z f.1)]) = some (padId z f.1) := by
       cases idFirst <;> simp [attr, List.find?]
-    have hcode : attr "formatCode" (if idFirst then [("numFmtId".toList, decimal f.1), ("formatCode".toList, utf8Bytes f.2)]
-        else [("formatCode".toList, utf8Bytes f.2), ("numFmtId".toList, decimal f.1)]) = some (utf8Bytes f.2) := by
+    have hcode : attr "formatCode" (if idFirst then [("numFmtId".toList, padId z f.1), ("formatCode".toList, utf8Bytes f.2)]
+        else [("formatCode".toList, utf8Bytes f.2), ("numFmtId".toList, padId z f.1)]) = some (utf8Bytes f.2) := by
       cases idFirst <;> simp [attr, List.find?]
     have hdec : Utf8.utf8Decode ((utf8Bytes f.2).map (·.toNat)) = some f.2 := by
       rw [utf8Bytes_toNat]; exact Utf8.utf8Decode_encode f.2
     rw [List.flatMap_cons, List.append_assoc]
     simp only [numFmtEvs, List.cons_append, List.nil_append]
-    simp only [xlsxStylesLoop, hn, if_true, hid, hcode, hdec, Option.getD_some, if_neg hne]
-    rw [loop_numFmts_items pfx hp idFirst formats rest _ fmts]
+    simp only [xlsxStylesLoop, hn, if_true, hid, hcode, hdec, Option.getD_some, if_neg hne, formatId_padId]
+    rw [loop_numFmts_items pfx hp idFirst z formats rest _ fmts]
     congr 1
     by_cases he : f.2.isEmpty = true
     · simp [fmtDefs, List.filter_cons, he]
@@ -576,9 +659,9 @@ theorem attr_mid (before after : List (List Char × Bytes)) (v : Bytes)
 
 theorem loop_cellXfs_items (pfx : Option (List Char)) (hp : ∀ p, pfx = some p → ':' ∉ p)
     (before after : List (List Char × Bytes)) (inner : List SEv) (hb : ∀ a ∈ before, a.1 ≠ "numFmtId".toList)
-    (hin : inner.all xfInert = true) (defs : List (Bytes × List Char)) :
+    (hin : inner.all xfInert = true) (defs : List (Bytes × List Char)) (z : Nat) :
     ∀ (xfs : List Nat) (rest : List SEv) (fmts : List CellFormat),
-    xlsxStylesLoop .cellXfs (xfs.flatMap (xfEvs pfx before after inner) ++ rest) defs fmts =
+    xlsxStylesLoop .cellXfs (xfs.flatMap (xfEvs pfx before after inner z) ++ rest) defs fmts =
       xlsxStylesLoop .cellXfs rest defs (fmts ++ xfs.map fun x => xlsxClass defs (some (decimal x)))
   | [], rest, fmts => by simp
   | x :: xfs, rest, fmts => by
@@ -586,10 +669,11 @@ theorem loop_cellXfs_items (pfx : Option (List Char)) (hp : ∀ p, pfx = some p 
     have hne : "xf".toList ≠ "cellXfs".toList := by decide
     rw [List.flatMap_cons, List.append_assoc]
     simp only [xfEvs, List.cons_append, List.append_assoc]
-    simp only [xlsxStylesLoop, hn, if_true, attr_mid before after _ hb, xlsxStyles_eq_map, List.map_cons, List.map_nil]
+    simp only [xlsxStylesLoop, hn, if_true, attr_mid before after _ hb, xlsxStyles_eq_map, List.map_cons, List.map_nil,
+      Option.map_some, formatId_padId]
     rw [loop_xf_inert inner hin]
     simp only [List.cons_append, List.nil_append, xlsxStylesLoop, hn, if_neg hne]
-    rw [loop_cellXfs_items pfx hp before after inner hb hin defs xfs rest _]
+    rw [loop_cellXfs_items pfx hp before after inner hb hin defs z xfs rest _]
     simp
 
 /-- xlsx: the style table decoded from the events of the styles part is the table the builder makes from the
@@ -609,11 +693,11 @@ theorem xlsxStylesOfEvents_enc (d : StyleDesc) (l : XlsxLayout) (hl : l.WF) :
   simp only [xlsxStylesLoop, n1, if_neg e1, if_neg e2]
   rw [loop_top_inert l.pre hpre]
   simp only [xlsxStylesLoop, n2, if_true]
-  rw [loop_numFmts_items l.pfx hp l.idFirst]
+  rw [loop_numFmts_items l.pfx hp l.idFirst l.fmtZeros]
   simp only [xlsxStylesLoop, n2, if_true, List.nil_append]
   rw [loop_top_inert l.mid hmid]
   simp only [xlsxStylesLoop, n3, if_neg e3, if_true]
-  rw [loop_cellXfs_items l.pfx hp l.xfBefore l.xfAfter l.xfInner hb hin]
+  rw [loop_cellXfs_items l.pfx hp l.xfBefore l.xfAfter l.xfInner hb hin _ l.xfZeros]
   simp only [xlsxStylesLoop, n3, if_true, List.nil_append]
   rw [loop_top_inert l.post hpost]
   simp only [xlsxStylesLoop, n1, if_true]
